@@ -39,6 +39,27 @@ def pipe_runs(prop, o, meta, only=None):
     return v, events
 
 
+def decl_runs(prop, o, meta, only=None):
+    """Every declaration of Decls.tla through vars!, the builder methods and the text, judged by DeclsTrace.tla."""
+    if only:
+        cases = list(only)
+    else:
+        cases, g, d = core.gen_cases(SPEC_DIR, "Decls.tla", "Decls.cfg", "decls", workers=2)
+        meta["decls"] = {"cases": len(cases), "gen_states": d, "gen_transitions": g}
+        for i, c in enumerate(cases):
+            c["id"] = f"D{i}"
+    events = core.rv_parallel("decls", cases, prop + "-decls", procs=4)
+    v = core.validate(SPEC_DIR, "DeclsTrace.tla", "DeclsTrace.cfg", events, prop, prop + "-decls", chunks=4)
+    byid = {e["id"]: e for e in events}
+    for r in v.rejects:
+        ev = byid.get(r[2], {})
+        o.violation(f"decl:{r[3]}:{ev.get('kind')}({ev.get('lo')},{ev.get('hi')}) {ev.get('form')}[{ev.get('n')}]",
+                    {k: ev.get(k) for k in ("id", "kind", "lo", "hi", "form", "n", "text", "valid", "declared")},
+                    f"{r[3]}\n  {ev.get('kind')}({ev.get('lo')}, {ev.get('hi')}) as {ev.get('form')}[{ev.get('n')}]: "
+                    + "; ".join(f"{d_}={ev.get(d_, {}).get('out')} {[(x['name'], x['kind'], x['lo']['n'], x['hi']['n']) for x in ev.get(d_, {}).get('decl', [])]}" for d_ in "MFT"))
+    return v
+
+
 def plans():
     out, meta = {}, {}
     for n in (0, 1, 2):
@@ -156,12 +177,14 @@ def check(tier, seed, replay=None):
     o = core.Outcome(prop, tier, seed)
     core.build_harness()
     meta = {}
-    pipe_only = None
+    pipe_only = decl_only = None
     if replay:
         c = json.load(open(replay))
         cases = [c]
         if "pipes" in c:
             pipe_only, cases = [c], []
+        elif "declared" in c:
+            decl_only, cases = [c], []
     else:
         pl, meta = plans()
         cs, g, d = core.gen_cases(lin.SPEC_DIR, "ModelGen.tla", "GenG.cfg", "genG", workers=8)
@@ -206,13 +229,15 @@ def check(tier, seed, replay=None):
         res = ev.get(door, {}) if door in "BNTKPS" else {}
         o.violation(f"{r[3]}:{c.get('text')}", c, f"{r[3]}\n{c.get('text')}\nplan={[(x['call'], x['n'], x['obj']) for x in c.get('plan', {}).get('calls', [])]} -> {res.get('out')} {res.get('kind','')} {res.get('why','')[:150]}")
     pv, pev = (None, []) if (replay and not pipe_only) else pipe_runs(prop, o, meta, pipe_only)
+    dv = None if (replay and not decl_only) else decl_runs(prop, o, meta, decl_only)
     same = sum(1 for s in v.stats if s[3] == 1)
     samples = [{"text": c["text"], "plan": [(x["call"], x["n"], x["obj"]) for x in c["plan"]["calls"]], "expected_objective": c["plan"]["expected"]} for c in cases[::max(1, len(cases) // 3)]][:3]
     o.level = "model_checking"
     o.coverage = {
         "states": v.distinct + (pv.distinct if pv else 0) + sum(m.get("gen_states", 0) for m in meta.values()),
         "transitions": v.generated + (pv.generated if pv else 0) + sum(m.get("gen_transitions", 0) for m in meta.values()),
-        "traces_validated_against_impl": len(v.stats) + (len(pv.stats) if pv else 0),
+        "traces_validated_against_impl": len(v.stats) + (len(pv.stats) if pv else 0) + (len(dv.stats) if dv else 0),
+        "declarations": {"validated": len(dv.stats) if dv else 0, "valid": sum(1 for s_ in (dv.stats if dv else []) if s_[4] == 1)},
         "pipe_runs": {"validated": len(pv.stats) if pv else 0,
                       "well_typed": sum(1 for s_ in (pv.stats if pv else []) if s_[2] == "ok"),
                       "kind_mismatch": sum(1 for s_ in (pv.stats if pv else []) if s_[2] == "invalid"),
@@ -229,7 +254,7 @@ def check(tier, seed, replay=None):
         "families": meta,
         "unverifiable_overflow_count": len(v.overflow_ids),
     }
-    o.assumptions = ["integer and Boolean domains (answers judged by complete enumeration)", "vars! is not exercised (declarations need compile-time identifiers); constraint!/expr! are exercised with one expression per side"]
+    o.assumptions = ["integer and Boolean domains (answers judged by complete enumeration)", "vars! is exercised with one fixed identifier per kind and form (spec/doors/Decls.tla); constraint!/expr! with one expression per side"]
     return o.finish()
 
 
